@@ -370,7 +370,7 @@ func (e *env) observe(ctx sdk.Context) string {
 			voters = append(voters, fmt.Sprintf("(%d, None)", p))
 			continue
 		}
-		sort.Ints(vs)
+		// the list exactly as returned (order and multiplicity): the tally counts its length
 		xs := make([]string, len(vs))
 		for i, v := range vs {
 			xs[i] = strconv.Itoa(v)
@@ -384,7 +384,14 @@ func (e *env) observe(ctx sdk.Context) string {
 		pit := sdk.KVStorePrefixIterator(store, []byte{prefix})
 		for ; pit.Valid(); pit.Next() {
 			key := pit.Key()
-			ps = append(ps, [2]int{int(sdk.BigEndianToUint64(key[1:9])), second(key[9:])})
+			first := int(sdk.BigEndianToUint64(key[1:9]))
+			ps = append(ps, [2]int{first, second(key[9:])})
+			// the enumeration reads the entry's VALUE: report it too when it does not repeat the key suffix
+			if v := pit.Value(); string(v) != string(key[9:]) && len(v) == len(key[9:]) {
+				ps = append(ps, [2]int{first, second(v)})
+			} else if len(v) != len(key[9:]) {
+				ps = append(ps, [2]int{first, 990})
+			}
 		}
 		pit.Close()
 		return pairsCoq(ps)
@@ -699,6 +706,37 @@ func main() {
 			}
 		}
 	}
+	// ---- overlapping role whitelists: 3 roles whitelist the same permission; an actor holds 2 or 3 of
+	// them, with and without the personal whitelist entry; further actors share the roles
+	for _, p := range []uint32{17, 66} {
+		gate := "vote_proposal"
+		if p == 66 {
+			gate = "poll_create"
+		}
+		for _, subset := range [][]int{{1, 2}, {1, 3}, {2, 3}, {1, 2, 3}} {
+			for personal := 0; personal < 2; personal++ {
+				for others := 0; others < 2; others++ {
+					l := []op{{Kind: "create_role", Via: -1, Sid: 1, W: []uint32{p}}, {Kind: "create_role", Via: -1, Sid: 2, W: []uint32{p, 9}}, {Kind: "create_role", Via: -1, Sid: 3, W: []uint32{1, p}}}
+					for _, r := range subset {
+						l = append(l, prop("assign", 0, r, 0))
+					}
+					if personal == 1 {
+						l = append(l, prop("wl_acc", 0, 0, p))
+					}
+					if others == 1 {
+						for _, a := range []int{1, 2} {
+							for _, r := range subset {
+								l = append(l, prop("assign", a, r, 0))
+							}
+						}
+						l = append(l, prop("wl_acc", 3, 0, p))
+					}
+					l = append(l, op{Kind: gate, A: 0, Via: -2}, prop("unassign", 0, subset[0], 0), op{Kind: "export_import", Via: -2}, op{Kind: gate, A: 0, Via: -2})
+					runHistory("overlap", fromList(l))
+				}
+			}
+		}
+	}
 	// ---- scripted adversarial histories (each aims at one index / one gate)
 	scripted := [][]op{
 		// councilor claim, then the poll permission is used and enumerated
@@ -726,12 +764,23 @@ func main() {
 	for h := 0; h < *n; h++ {
 		length := 8 + rng.Intn(18)
 		nroles := rng.Intn(4)
+		hot := uperms[rng.Intn(len(uperms))] // a permission most initial roles whitelist (overlap)
+		overlapActor := rng.Intn(4)
 		runHistory("random", func(g *gen, i int) (op, bool) {
 			if i >= length {
 				return op{}, false
 			}
 			if i < nroles { // start with a few roles, created by proposal
 				w := g.permSet(3)
+				if g.r.Chance(60) {
+					has := false
+					for _, q := range w {
+						has = has || q == hot
+					}
+					if !has {
+						w = append(w, hot)
+					}
+				}
 				var b []uint32
 				for _, p := range g.permSet(2) {
 					clash := false
@@ -744,7 +793,10 @@ func main() {
 				}
 				return op{Kind: "create_role", Via: -1, Sid: i + 1, W: w, Bl: b}, true
 			}
-			if i < nroles+3 && g.r.Chance(60) { // bootstrap some editors
+			if nroles >= 2 && i >= nroles && i < 2*nroles && g.r.Chance(70) { // one actor gets several of the roles
+				return prop("assign", overlapActor, i-nroles+1, 0), true
+			}
+			if i < 2*nroles+3 && g.r.Chance(50) { // bootstrap some editors
 				return prop("wl_acc", g.r.Intn(3), 0, []uint32{1, 9, 30, 3}[g.r.Intn(4)]), true
 			}
 			return g.randomOp(), true
